@@ -39,7 +39,7 @@ def search(n):
     return None
 
 
-async def loop_step_case(context):
+async def loop_step_case(context, n=None, ordered=False):
     """a real LoopCombinatorStep around 1..14 loop instances (scatter elements) with different iteration counts; the driver plays
     condition, body and loop terminator.  Every instance must see the iterations 0..count in order, and the step must end only
     after every instance has finished."""
@@ -51,7 +51,7 @@ async def loop_step_case(context):
     from streamflow.workflow.step import LoopCombinatorStep
     from streamflow.workflow.token import IterationTerminationToken, TerminationToken
 
-    n = rng.choice([1, 2, 3, 4, 11, 12, 14])
+    n = n or rng.choice([1, 2, 3, 4, 11, 12, 14])
     counts = [rng.choice([0, 1, 2, 3, 9, 10, 12]) for _ in range(n)]
     wf = Workflow(context=context, name=utils.random_name(), config={})
     in_port, out_port = wf.create_port(), wf.create_port()
@@ -67,7 +67,7 @@ async def loop_step_case(context):
         await tok.save(context.database, in_port.persistent_id)
         in_port.put(tok)
 
-    for k in rng.sample(range(n), n):
+    for k in (range(n) if ordered else rng.sample(range(n), n)):  # (ordered: 0.1 arrives before 0.10, 0.11)
         await feed(Token(value=0, tag=f"0.{k}"))
     in_port.put(TerminationToken(Status.COMPLETED))
     seen = {f"0.{k}": [] for k in range(n)}
@@ -277,6 +277,9 @@ async def loop_step_search(n):
     workdir = tempfile.mkdtemp(prefix="c06.")
     context = build_context({"database": {"type": "default", "config": {"connection": ":memory:"}}, "path": workdir})
     try:
+        bad = await loop_step_case(context, n=12, ordered=True) or await loop_step_case(context, n=12)
+        if bad:
+            return bad
         for _ in range(n):
             bad = await loop_step_case(context) or await loop_output_run_case(context) or await loop_output_run_case(context) or await conditional_case(context) or await step_restore_case(context)
             if bad:
